@@ -437,6 +437,14 @@ Definition blob_push (authc : bool) := blob_push_gen authc false.
 
 (* manifestStore.push: an *auth.Client and a body without GetBody => the content is
    buffered in memory and GetBody installed *)
+(* manifestStore.pushWithIndexing, manifest types that may carry a subject (referrers API not
+   known to be supported): the content is read into memory first, whatever the client *)
+Definition indexed_manifest_push_body (bd : body) : body :=
+  match bk bd with
+  | KOneShot => mkBody KReplay (bdata bd)
+  | _ => bd
+  end.
+
 Definition manifest_push_body (is_auth_client : bool) (bd : body) : body :=
   match bk bd with
   | KOneShot => if is_auth_client then mkBody KReplay (bdata bd) else bd
